@@ -104,9 +104,12 @@ func (vc *VC) loopEnv(b *ssa.BasicBlock, st *State, phiOver map[ssa.Value]string
 			return vc.val(v)
 		}
 		if name == "$i" {
-			for _, ins := range b.Instrs {
-				if phi, ok := ins.(*ssa.Phi); ok && phi.Comment == "rangeindex" {
-					return TV{T: valOf(phi), Ty: phi.Type()}, true
+			// the index of the nearest enclosing range-over-slice loop
+			for blk := b; blk != nil; blk = blk.Idom() {
+				for _, ins := range blk.Instrs {
+					if phi, ok := ins.(*ssa.Phi); ok && phi.Comment == "rangeindex" {
+						return TV{T: valOf(phi), Ty: phi.Type()}, true
+					}
 				}
 			}
 			return TV{}, false
